@@ -59,7 +59,8 @@ inductive Payload
 deriving DecidableEq, Repr
 
 inductive Event (ν : Type)
-  | start (t : Tag) (id : Option String) (ref : Option String)   -- `<t id=… spectrumRef=…>`
+  | start (t : Tag) (id : Option String) (ref : Option String)   -- `<t id=… spectrumRef=…>` (values after XML unescaping)
+  | startBad (t : Tag)     -- `<t …>` whose `id` (spectrum) / `spectrumRef` (precursor) has a malformed entity (`&bogus;`)
   | cv (c : Cv) (v : Val ν) (u : TimeUnit)                        -- `<cvParam accession=… value=… unitAccession=…/>`
   | text (p : Payload)
   | stop (t : Tag)                                                -- `</t>`
@@ -67,7 +68,7 @@ inductive Event (ν : Type)
 deriving DecidableEq, Repr
 
 /-- `MzMLError` classes reachable from events -/
-inductive Err | malformed | float | int | base64 | io
+inductive Err | malformed | float | int | base64 | io | xml
 deriving DecidableEq, Repr
 
 /-- the operations the code applies to numbers -/
@@ -349,6 +350,12 @@ def onEnd (cfg : Config) (s : PState ν) (t : Tag) : PState ν × Option (Spectr
 /-- one iteration of the loop: new locals, and the spectrum pushed (if any) -/
 def step (cfg : Config) (s : PState ν) : Event ν → Except Err (PState ν × Option (Spectrum ν))
   | .start t id ref => match onStart s t id ref with | .error e => .error e | .ok s' => .ok (s', none)
+  | .startBad t =>
+    -- the state transition happens first; only `spectrum` / `precursor` unescape an attribute value
+    match t with
+    | .spectrum => .error .xml
+    | .precursor => .error .xml
+    | _ => match onStart s t none none with | .error e => .error e | .ok s' => .ok (s', none)
   | .cv c v u => match onCv cfg s c v u with | .error e => .error e | .ok s' => .ok (s', none)
   | .text p => match onText cfg s p with | .error e => .error e | .ok s' => .ok (s', none)
   | .stop t => .ok (onEnd cfg s t)
@@ -540,24 +547,27 @@ def Param.startVal (p : Param ν) : ν := if p.u == .seconds then div p.v.fltD s
 def startTimeOf (ps : List (Param ν)) : ν :=
   ((lastOf (isCv .scanStart) ps).map Param.startVal).getD zero
 
-/-- the spectrum one element encodes; `none` when the MS-level filter removes it -/
+/-- the spectrum one element encodes -/
+def reading (cfg : Config) (e : SpecEl ν) : Spectrum ν :=
+  let level := (natOf .msLevel e.params).getD 0
+  let scan := e.scans.flatten
+  let int := arrayOf .intensity e.arrays
+  let noise := arrayOf .noise e.arrays
+  { id := e.id
+    level := level
+    centroid := ((lastOf isRepr e.params).map (fun p => p.c == .centroid)).getD false
+    tic := (fltOf .tic e.params).getD zero
+    startTime := startTimeOf scan
+    injection := (fltOf .injectionTime scan).getD zero
+    precursors := denotePrecs (fltOf .invMobility scan) e.precs
+    mz := arrayOf .mz e.arrays
+    intensity := if cfg.sn == some level && !noise.isEmpty then zipDiv int noise else int }
+
+/-- … or `none` when the MS-level filter removes it -/
 def denote (cfg : Config) (e : SpecEl ν) : Option (Spectrum ν) :=
   let level := (natOf .msLevel e.params).getD 0
   if (match cfg.filter with | some f => level != f | none => false) then none
-  else
-    let scan := e.scans.flatten
-    let int := arrayOf .intensity e.arrays
-    let noise := arrayOf .noise e.arrays
-    some
-      { id := e.id
-        level := level
-        centroid := ((lastOf isRepr e.params).map (fun p => p.c == .centroid)).getD false
-        tic := (fltOf .tic e.params).getD zero
-        startTime := startTimeOf scan
-        injection := (fltOf .injectionTime scan).getD zero
-        precursors := denotePrecs (fltOf .invMobility scan) e.precs
-        mz := arrayOf .mz e.arrays
-        intensity := if cfg.sn == some level && !noise.isEmpty then zipDiv int noise else int }
+  else some (reading cfg e)
 
 /-! ### well-formedness (executable): the element stays inside the vocabulary the parser accepts -/
 
